@@ -121,7 +121,8 @@ def _entry_lattice(tier, seed):
             dur = Fraction(h) * 3600
             if dur // step < 1 or dur // step > 420:
                 continue
-            cases.append((ENTRY_STARTS[(i + seed) % len(ENTRY_STARTS)], step, h))
+            # output step = physics step, or 3 x physics (epochs of the steps between two saves are written with the save)
+            cases.append((ENTRY_STARTS[(i + seed) % len(ENTRY_STARTS)], step, h, 1 if (i + len(cases)) % 2 == 0 else 3))
     return cases
 
 
@@ -141,7 +142,7 @@ def items(tier, seed):
     for chunk in fw.chunked(_dur_lattice(tier, seed), 6):
         out.append(("duration", [(st.isoformat(), step, d, mode) for st, step, d, mode in chunk]))
     for chunk in fw.chunked(_entry_lattice(tier, seed), 4):
-        out.append(("entry", [(st.isoformat(), step, h) for st, step, h in chunk]))
+        out.append(("entry", [(st.isoformat(), step, h, m) for st, step, h, m in chunk]))
     # the configured instants are UTC whatever the HOST's time zone is (POSIX TZ strings: no tzdata needed)
     for tz in HOST_ZONES:
         out.append(("host_tz", tz))
@@ -401,7 +402,7 @@ def _run_entry(res, item):
     import resonaate  # noqa: PLC0415
     from resonaate.scenario.scenario import Scenario  # noqa: PLC0415
 
-    for iso, step, hours in item[1]:
+    for iso, step, hours, out_mult in item[1]:
         st = datetime.fromisoformat(iso)
         dur = Fraction(hours) * 3600
         expected_steps = int(dur // step)
@@ -410,6 +411,7 @@ def _run_entry(res, item):
             2,  # the configured span is NOT what bounds the run: the requested hours are
             [scen.engine(1, [scen.target_eci(10001, *scen.LEO_A)], [scen.ground_sensor(20001, 10.0, 20.0)])],
             physics=step,
+            output=step * out_mult,
             truth_only=True,
         )
         tmp = tempfile.mkdtemp(prefix="verif_c05_")
@@ -420,9 +422,10 @@ def _run_entry(res, item):
             calls["n"] += 1
             return orig(self)
 
-        case = {"start": iso, "start_second": st.second, "step": step, "hours": hours, "D_seconds": str(dur)}
+        case = {"start": iso, "start_second": st.second, "step": step, "hours": hours, "D_seconds": str(dur),
+                "output_step": step * out_mult}
         err = None
-        got_iso, tjd = [], []
+        got_iso, tjd, got_ejd = [], [], []
         try:
             main = {k: v for k, v in cfg.items() if k != "engines"}
             main["engines_files"] = []
@@ -445,6 +448,7 @@ def _run_entry(res, item):
             scen.fresh()  # disposes the cached file-database interface
             con = sqlite3.connect(f"{tmp}/out.sqlite3")
             got_iso = [r[0] for r in con.execute("SELECT timestampISO FROM epochs ORDER BY julian_date")]
+            got_ejd = [float(r[0]) for r in con.execute("SELECT julian_date FROM epochs ORDER BY julian_date")]
             tjd = [r[0] for r in con.execute("SELECT julian_date FROM truth_ephemerides WHERE agent_id=10001 ORDER BY julian_date")]
             con.close()
         finally:
@@ -459,9 +463,10 @@ def _run_entry(res, item):
             observed={"stepForward_calls": calls["n"], "error": err},
             expected={"steps": expected_steps},
             outcome=f"entry_steps_minus_expected={calls['n'] - expected_steps}",
-            item=("entry", [(iso, step, hours)]),
+            item=("entry", [(iso, step, hours, out_mult)]),
         )
-        want_jd = [_ref_jd(st + timedelta(seconds=k * step)) for k in range(expected_steps + 1)]
+        saved = [k for k in range(expected_steps + 1) if k % out_mult == 0]  # output steps: truth rows are written there
+        want_jd = [_ref_jd(st + timedelta(seconds=k * step)) for k in saved]
         ok_truth = len(tjd) == len(want_jd) and all(abs(a - b) <= 2e-9 for a, b in zip(tjd, want_jd))
         res.case(
             "entry/truth_rows",
@@ -471,18 +476,21 @@ def _run_entry(res, item):
             signature=f"C05/entry/truth_rows/{'fewer' if len(tjd) < len(want_jd) else 'more' if len(tjd) > len(want_jd) else 'shifted'}",
             observed={"rows": len(tjd)},
             expected={"rows": len(want_jd)},
-            item=("entry", [(iso, step, hours)]),
+            item=("entry", [(iso, step, hours, out_mult)]),
         )
-        want_iso = [(st + timedelta(seconds=k * step)).isoformat(timespec="microseconds") for k in range(expected_steps + 1)]
+        # every step up to the last save has its epoch: start + k*step, timestamp AND Julian date
+        want_ep = [st + timedelta(seconds=k * step) for k in range(max(saved) + 1)]
+        want_iso = [w.isoformat(timespec="microseconds") for w in want_ep]
         res.case(
             "entry/epochs",
             case,
-            got_iso[: len(want_iso)] == want_iso and len(got_iso) >= len(want_iso),
+            got_iso[: len(want_iso)] == want_iso and len(got_iso) >= len(want_iso)
+            and all(abs(a - _ref_jd(w)) <= 2e-9 for a, w in zip(got_ejd, want_ep)),
             nontrivial=nontriv,
             signature="C05/entry/epochs",
             observed=got_iso[:3] + got_iso[-2:],
             expected=want_iso[:3] + want_iso[-2:],
-            item=("entry", [(iso, step, hours)]),
+            item=("entry", [(iso, step, hours, out_mult)]),
         )
         res.observe(calls["n"], got_iso, tjd)
         res.states += calls["n"] + 1
